@@ -369,14 +369,14 @@ theorem stream_trailer_verified {inflate : Inflate} {H : Hash} {inp : Bytes} {es
 /-! ## 2. forward chaining: terminates, resolves each entry at most once, names are hashes -/
 
 /-- A work item as `resolveAll` builds them: full entries without a base, deltas with one. -/
-def WorkOK (w : Work) : Prop :=
+def WorkOK (w : Work0) : Prop :=
   match w with
   | (⟨_, .full _ _⟩, none) => True
   | (⟨_, .ofs _ _⟩, some _) => True
   | (⟨_, .ref _ _⟩, some _) => True
   | _ => False
 
-theorem resolveOne_hash {H : Hash} {valid : Obj → Bool} {w : Work} {o : Obj}
+theorem resolveOne_hash {H : Hash} {valid : Obj → Bool} {w : Work0} {o : Obj}
     (h : resolveOne H valid w = .ok o) : HashOK H o := by
   have mk : ∀ ty data, (match mkObj H ty data with
       | none => Except.error Err.format
@@ -414,7 +414,7 @@ theorem resolveOne_hash {H : Hash} {valid : Obj → Bool} {w : Work} {o : Obj}
   · exact app _ _ _ h
   · cases h
 
-theorem resolveOne_no_other {H : Hash} {valid : Obj → Bool} {w : Work} (hw : WorkOK w) :
+theorem resolveOne_no_other {H : Hash} {valid : Obj → Bool} {w : Work0} (hw : WorkOK w) :
     resolveOne H valid w ≠ .error .other := by
   have mk : ∀ ty data, (match mkObj H ty data with
       | none => Except.error Err.format
@@ -497,33 +497,39 @@ theorem filter_split {α : Type} (p : α → Bool) (l : List α) :
     · have : p a = false := by simpa using h
       simp only [this, Bool.false_eq_true, if_false, Bool.not_false, if_true, List.length_cons]; omega
 
+/-- What is recorded with every yielded object: it is named by the hash of its header ++ data, and (when the
+walk refuses deltas onto their own chain) its name is none of the ids it was a delta against. -/
+def YieldOK (rej : Bool) (H : Hash) (p : Obj × List Bytes) : Prop :=
+  HashOK H p.1 ∧ (rej = true → p.1.name ∉ p.2)
+
 /-- Invariants of `_follow_chain`, all at once.  With `fuel ≥ |todo| + |pending|`:
-never out of fuel; every object is yielded with the hash of its header ++ data as its name; `pending` only
-shrinks; yielded + still-pending never exceeds what there was (each entry is resolved AT MOST ONCE), with
-equality when the walk was not stopped by an error. -/
-theorem chainLoop_inv (H : Hash) (valid : Obj → Bool) : ∀ (fuel : Nat) (todo : List Work) (pending : List Entry) (acc : List Obj),
-    todo.length + pending.length ≤ fuel → (∀ w ∈ todo, WorkOK w) → (∀ e ∈ pending, isFull e = false) →
-    (∀ o ∈ acc, HashOK H o) →
-    (chainLoop H valid fuel todo pending acc).2.2 ≠ some .other ∧
-    (∀ o ∈ (chainLoop H valid fuel todo pending acc).1, HashOK H o) ∧
-    (∀ e ∈ (chainLoop H valid fuel todo pending acc).2.1, isFull e = false) ∧
-    (chainLoop H valid fuel todo pending acc).2.1.length ≤ pending.length ∧
-    (chainLoop H valid fuel todo pending acc).1.length + (chainLoop H valid fuel todo pending acc).2.1.length
+never out of fuel; every object is yielded with the hash of its header ++ data as its name and (with `rej`)
+under a name that occurs nowhere on its own delta chain; `pending` only shrinks; yielded + still-pending never
+exceeds what there was (each entry is resolved AT MOST ONCE), with equality when the walk was not stopped. -/
+theorem chainLoop_inv (rej : Bool) (H : Hash) (valid : Obj → Bool) :
+    ∀ (fuel : Nat) (todo : List Work) (pending : List Entry) (acc : List (Obj × List Bytes)),
+    todo.length + pending.length ≤ fuel → (∀ w ∈ todo, WorkOK w.1) → (∀ e ∈ pending, isFull e = false) →
+    (∀ p ∈ acc, YieldOK rej H p) →
+    (chainLoop rej H valid fuel todo pending acc).2.2 ≠ some .other ∧
+    (∀ p ∈ (chainLoop rej H valid fuel todo pending acc).1, YieldOK rej H p) ∧
+    (∀ e ∈ (chainLoop rej H valid fuel todo pending acc).2.1, isFull e = false) ∧
+    (chainLoop rej H valid fuel todo pending acc).2.1.length ≤ pending.length ∧
+    (chainLoop rej H valid fuel todo pending acc).1.length + (chainLoop rej H valid fuel todo pending acc).2.1.length
       ≤ acc.length + todo.length + pending.length ∧
-    ((chainLoop H valid fuel todo pending acc).2.2 = none →
-      (chainLoop H valid fuel todo pending acc).1.length + (chainLoop H valid fuel todo pending acc).2.1.length
+    ((chainLoop rej H valid fuel todo pending acc).2.2 = none →
+      (chainLoop rej H valid fuel todo pending acc).1.length + (chainLoop rej H valid fuel todo pending acc).2.1.length
         = acc.length + todo.length + pending.length) := by
   intro fuel
   induction fuel with
   | zero =>
     intro todo pending acc hf hw hp ha
     cases todo with
-    | nil => simp [chainLoop]; exact ⟨ha, hp⟩
+    | nil => simp [chainLoop]; exact ⟨fun a b h => ha (a, b) h, hp⟩
     | cons w t => simp at hf
   | succ fuel ih =>
     intro todo pending acc hf hw hp ha
     cases todo with
-    | nil => simp [chainLoop]; exact ⟨ha, hp⟩
+    | nil => simp [chainLoop]; exact ⟨fun a b h => ha (a, b) h, hp⟩
     | cons w t =>
       simp only [chainLoop]
       split
@@ -534,47 +540,55 @@ theorem chainLoop_inv (H : Hash) (valid : Obj → Bool) : ∀ (fuel : Nat) (todo
         subst hc
         exact resolveOne_no_other (hw w (List.mem_cons_self)) he
       · rename_i o ho
-        have hpart := unblock_partition w.1.off o.name pending
-        have hdelta : ∀ e ∈ (pending.filter (isOfsFor w.1.off) ++ pending.filter (isRefFor o.name)), isFull e = false := by
-          intro e he
-          simp only [List.mem_append, List.mem_filter] at he
-          rcases he with ⟨h, _⟩ | ⟨h, _⟩ <;> exact hp e h
-        have := ih
-          (((pending.filter (isOfsFor w.1.off) ++ pending.filter (isRefFor o.name)).map fun e => (e, some (o.ty, o.data))).reverse ++ t)
-          (pending.filter fun e => !(isOfsFor w.1.off e || isRefFor o.name e)) (acc ++ [o])
-          (by
-            simp only [List.length_append, List.length_reverse, List.length_map, List.length_cons] at hf hpart ⊢
-            omega)
-          (by
-            intro w' hw'
-            simp only [List.mem_append, List.mem_reverse, List.mem_map] at hw'
-            rcases hw' with ⟨e, he, rfl⟩ | h
-            · have hd := hdelta e (by simpa using he)
-              obtain ⟨eo, ek⟩ := e
-              cases ek with
-              | full _ _ => simp [isFull] at hd
-              | ofs _ _ => trivial
-              | ref _ _ => trivial
-            · exact hw w' (List.mem_cons_of_mem _ h))
-          (by
+        split
+        · -- the delta resolves to an object of its own chain: ApplyDeltaError
+          refine ⟨by simp, ha, hp, Nat.le_refl _, by simp only [List.length_cons]; omega, by intro h; cases h⟩
+        · rename_i hnr
+          have hpart := unblock_partition w.1.1.off o.name pending
+          have hdelta : ∀ e ∈ (pending.filter (isOfsFor w.1.1.off) ++ pending.filter (isRefFor o.name)), isFull e = false := by
             intro e he
-            exact hp e (List.mem_filter.mp he).1)
-          (by
-            intro o' ho'
-            simp only [List.mem_append, List.mem_singleton] at ho'
-            rcases ho' with h | rfl
-            · exact ha o' h
-            · exact resolveOne_hash ho)
-        obtain ⟨h1, h2, h3, hm, h4, h5⟩ := this
-        have hfl : (pending.filter fun e => !(isOfsFor w.1.off e || isRefFor o.name e)).length ≤ pending.length :=
-          List.length_filter_le _ _
-        refine ⟨h1, h2, h3, by omega, ?_, ?_⟩
-        · simp only [List.length_append, List.length_reverse, List.length_map, List.length_cons, List.length_nil] at h4 hpart ⊢
-          omega
-        · intro hn
-          have := h5 hn
-          simp only [List.length_append, List.length_reverse, List.length_map, List.length_cons, List.length_nil] at this hpart ⊢
-          omega
+            simp only [List.mem_append, List.mem_filter] at he
+            rcases he with ⟨h, _⟩ | ⟨h, _⟩ <;> exact hp e h
+          have := ih
+            (((pending.filter (isOfsFor w.1.1.off) ++ pending.filter (isRefFor o.name)).map
+                fun e => ((e, some (o.ty, o.data)), o.name :: w.2)).reverse ++ t)
+            (pending.filter fun e => !(isOfsFor w.1.1.off e || isRefFor o.name e)) (acc ++ [(o, w.2)])
+            (by
+              simp only [List.length_append, List.length_reverse, List.length_map, List.length_cons] at hf hpart ⊢
+              omega)
+            (by
+              intro w' hw'
+              simp only [List.mem_append, List.mem_reverse, List.mem_map] at hw'
+              rcases hw' with ⟨e, he, rfl⟩ | h
+              · have hd := hdelta e (by simpa using he)
+                obtain ⟨eo, ek⟩ := e
+                cases ek with
+                | full _ _ => simp [isFull] at hd
+                | ofs _ _ => trivial
+                | ref _ _ => trivial
+              · exact hw w' (List.mem_cons_of_mem _ h))
+            (by
+              intro e he
+              exact hp e (List.mem_filter.mp he).1)
+            (by
+              intro p' hp'
+              simp only [List.mem_append, List.mem_singleton] at hp'
+              rcases hp' with h | rfl
+              · exact ha p' h
+              · refine ⟨resolveOne_hash ho, ?_⟩
+                intro hr
+                simp only [hr, Bool.true_and, Bool.not_eq_true] at hnr
+                simpa using hnr)
+          obtain ⟨h1, h2, h3, hm, h4, h5⟩ := this
+          have hfl : (pending.filter fun e => !(isOfsFor w.1.1.off e || isRefFor o.name e)).length ≤ pending.length :=
+            List.length_filter_le _ _
+          refine ⟨h1, h2, h3, by omega, ?_, ?_⟩
+          · simp only [List.length_append, List.length_reverse, List.length_map, List.length_cons, List.length_nil] at h4 hpart ⊢
+            omega
+          · intro hn
+            have := h5 hn
+            simp only [List.length_append, List.length_reverse, List.length_map, List.length_cons, List.length_nil] at this hpart ⊢
+            omega
 
 /-- Number of `full` jobs (each of them resolves one more entry than was pending). -/
 def nFull : List Job → Nat
@@ -583,38 +597,38 @@ def nFull : List Job → Nat
   | .ext _ :: js => nFull js
 
 /-- The same invariants for the outer loops of `_walk_all_chains` (full objects, then external bases). -/
-theorem runJobs_inv (H : Hash) (valid : Obj → Bool) (ext : Bytes → Option (Nat × Bytes)) (fuel : Nat) :
-    ∀ (jobs : List Job) (pending : List Entry) (acc : List Obj),
+theorem runJobs_inv (rej : Bool) (H : Hash) (valid : Obj → Bool) (ext : Bytes → Option (Nat × Bytes)) (fuel : Nat) :
+    ∀ (jobs : List Job) (pending : List Entry) (acc : List (Obj × List Bytes)),
     nFull jobs + pending.length ≤ fuel → (∀ j ∈ jobs, ∀ e, j = .full e → isFull e = true) →
-    (∀ e ∈ pending, isFull e = false) → (∀ o ∈ acc, HashOK H o) →
-    (runJobs H valid ext fuel jobs pending acc).2.2 ≠ some .other ∧
-    (∀ o ∈ (runJobs H valid ext fuel jobs pending acc).1, HashOK H o) ∧
-    (∀ e ∈ (runJobs H valid ext fuel jobs pending acc).2.1, isFull e = false) ∧
-    (runJobs H valid ext fuel jobs pending acc).2.1.length ≤ pending.length ∧
-    (runJobs H valid ext fuel jobs pending acc).1.length + (runJobs H valid ext fuel jobs pending acc).2.1.length
+    (∀ e ∈ pending, isFull e = false) → (∀ p ∈ acc, YieldOK rej H p) →
+    (runJobs rej H valid ext fuel jobs pending acc).2.2 ≠ some .other ∧
+    (∀ p ∈ (runJobs rej H valid ext fuel jobs pending acc).1, YieldOK rej H p) ∧
+    (∀ e ∈ (runJobs rej H valid ext fuel jobs pending acc).2.1, isFull e = false) ∧
+    (runJobs rej H valid ext fuel jobs pending acc).2.1.length ≤ pending.length ∧
+    (runJobs rej H valid ext fuel jobs pending acc).1.length + (runJobs rej H valid ext fuel jobs pending acc).2.1.length
       ≤ acc.length + nFull jobs + pending.length ∧
-    ((runJobs H valid ext fuel jobs pending acc).2.2 = none →
-      (runJobs H valid ext fuel jobs pending acc).1.length + (runJobs H valid ext fuel jobs pending acc).2.1.length
+    ((runJobs rej H valid ext fuel jobs pending acc).2.2 = none →
+      (runJobs rej H valid ext fuel jobs pending acc).1.length + (runJobs rej H valid ext fuel jobs pending acc).2.1.length
         = acc.length + nFull jobs + pending.length) := by
   intro jobs
   induction jobs with
-  | nil => intro pending acc _ _ hp ha; simp [runJobs, nFull]; exact ⟨ha, hp⟩
+  | nil => intro pending acc _ _ hp ha; simp [runJobs, nFull]; exact ⟨fun a b h => ha (a, b) h, hp⟩
   | cons j js ih =>
     intro pending acc hf hj hp ha
     -- one job
-    have hone : (runJob H valid ext fuel j pending acc).2.2 ≠ some .other ∧
-        (∀ o ∈ (runJob H valid ext fuel j pending acc).1, HashOK H o) ∧
-        (∀ e ∈ (runJob H valid ext fuel j pending acc).2.1, isFull e = false) ∧
-        (runJob H valid ext fuel j pending acc).2.1.length ≤ pending.length ∧
-        (runJob H valid ext fuel j pending acc).1.length + (runJob H valid ext fuel j pending acc).2.1.length
+    have hone : (runJob rej H valid ext fuel j pending acc).2.2 ≠ some .other ∧
+        (∀ p ∈ (runJob rej H valid ext fuel j pending acc).1, YieldOK rej H p) ∧
+        (∀ e ∈ (runJob rej H valid ext fuel j pending acc).2.1, isFull e = false) ∧
+        (runJob rej H valid ext fuel j pending acc).2.1.length ≤ pending.length ∧
+        (runJob rej H valid ext fuel j pending acc).1.length + (runJob rej H valid ext fuel j pending acc).2.1.length
           ≤ acc.length + nFull [j] + pending.length ∧
-        ((runJob H valid ext fuel j pending acc).2.2 = none →
-          (runJob H valid ext fuel j pending acc).1.length + (runJob H valid ext fuel j pending acc).2.1.length
+        ((runJob rej H valid ext fuel j pending acc).2.2 = none →
+          (runJob rej H valid ext fuel j pending acc).1.length + (runJob rej H valid ext fuel j pending acc).2.1.length
             = acc.length + nFull [j] + pending.length) := by
       cases j with
       | full e =>
         have hfull := hj (.full e) (List.mem_cons_self) e rfl
-        have := chainLoop_inv H valid fuel [(e, none)] pending acc
+        have := chainLoop_inv rej H valid fuel [((e, none), [])] pending acc
           (by simp only [nFull, List.length_cons, List.length_nil] at hf ⊢; omega)
           (by
             intro w hw
@@ -630,11 +644,11 @@ theorem runJobs_inv (H : Hash) (valid : Obj → Bool) (ext : Bytes → Option (N
       | ext name =>
         simp only [runJob, nFull]
         cases hext : ext name with
-        | none => simp; exact ⟨ha, hp⟩
+        | none => simp; exact ⟨fun a b h => ha (a, b) h, hp⟩
         | some base =>
           simp only
           have hsplit := filter_split (isRefFor name) pending
-          have := chainLoop_inv H valid fuel ((pending.filter (isRefFor name)).map fun e => (e, some base))
+          have := chainLoop_inv rej H valid fuel ((pending.filter (isRefFor name)).map fun e => ((e, some base), [name]))
             (pending.filter fun e => !isRefFor name e) acc
             (by simp only [List.length_map, nFull] at hf ⊢; omega)
             (by
@@ -655,7 +669,7 @@ theorem runJobs_inv (H : Hash) (valid : Obj → Bool) (ext : Bytes → Option (N
           have := h5 hn
           omega
     simp only [runJobs]
-    generalize hr : runJob H valid ext fuel j pending acc = r at hone
+    generalize hr : runJob rej H valid ext fuel j pending acc = r at hone
     obtain ⟨acc', pending', err⟩ := r
     simp only at hone
     obtain ⟨h1, h2, h3, hm, h4, h5⟩ := hone
@@ -690,11 +704,11 @@ theorem nFull_map_ext (l : List Bytes) : nFull (l.map Job.ext) = 0 := by
   | cons a l ih => simp [nFull, ih]
 
 /-- Everything `resolveAll` guarantees, for EVERY list of entries (cyclic, self-referential, dangling, …). -/
-theorem resolveAll_inv (H : Hash) (valid : Obj → Bool) (ext : Bytes → Option (Nat × Bytes)) (entries : List Entry) :
-    (resolveAll H valid ext entries).status ≠ .failed .other ∧
-    (∀ o ∈ (resolveAll H valid ext entries).objs, HashOK H o) ∧
-    (resolveAll H valid ext entries).objs.length ≤ entries.length ∧
-    ((resolveAll H valid ext entries).status = .done → (resolveAll H valid ext entries).objs.length = entries.length) := by
+theorem resolveAll_inv (rej : Bool) (H : Hash) (valid : Obj → Bool) (ext : Bytes → Option (Nat × Bytes)) (entries : List Entry) :
+    (resolveAll rej H valid ext entries).status ≠ .failed .other ∧
+    (∀ p ∈ (resolveAll rej H valid ext entries).chains, YieldOK rej H p) ∧
+    (resolveAll rej H valid ext entries).chains.length ≤ entries.length ∧
+    ((resolveAll rej H valid ext entries).status = .done → (resolveAll rej H valid ext entries).chains.length = entries.length) := by
   have hsplit := filter_split isFull entries
   have hjobs1 : ∀ j ∈ (entries.filter isFull).map Job.full, ∀ e, j = .full e → isFull e = true := by
     intro j hj e he
@@ -703,7 +717,7 @@ theorem resolveAll_inv (H : Hash) (valid : Obj → Bool) (ext : Bytes → Option
     simp only [Job.full.injEq] at he
     subst he
     exact hf
-  have h1 := runJobs_inv H valid ext entries.length ((entries.filter isFull).map Job.full)
+  have h1 := runJobs_inv rej H valid ext entries.length ((entries.filter isFull).map Job.full)
     (entries.filter fun e => !isFull e) []
     (by rw [nFull_map_full]; omega) hjobs1
     (by intro e he; simpa using (List.mem_filter.mp he).2)
@@ -712,7 +726,7 @@ theorem resolveAll_inv (H : Hash) (valid : Obj → Bool) (ext : Bytes → Option
   simp only [List.length_nil, Nat.zero_add] at h1
   unfold resolveAll
   simp only
-  generalize runJobs H valid ext entries.length ((entries.filter isFull).map Job.full)
+  generalize runJobs rej H valid ext entries.length ((entries.filter isFull).map Job.full)
     (entries.filter fun e => !isFull e) [] = r1 at h1
   obtain ⟨acc, pending, err⟩ := r1
   simp only at h1
@@ -728,7 +742,7 @@ theorem resolveAll_inv (H : Hash) (valid : Obj → Bool) (ext : Bytes → Option
   | none =>
     simp only
     have hlen := a5 rfl
-    have h2 := runJobs_inv H valid ext entries.length ((refNames pending).map Job.ext) pending acc
+    have h2 := runJobs_inv rej H valid ext entries.length ((refNames pending).map Job.ext) pending acc
       (by rw [nFull_map_ext]; omega)
       (by
         intro j hj e he
@@ -737,7 +751,7 @@ theorem resolveAll_inv (H : Hash) (valid : Obj → Bool) (ext : Bytes → Option
         cases he)
       a3 a2
     rw [nFull_map_ext] at h2
-    generalize runJobs H valid ext entries.length ((refNames pending).map Job.ext) pending acc = r2 at h2
+    generalize runJobs rej H valid ext entries.length ((refNames pending).map Job.ext) pending acc = r2 at h2
     obtain ⟨acc', pending', err'⟩ := r2
     simp only at h2
     obtain ⟨b1, b2, b3, bm, b4, b5⟩ := h2
@@ -765,26 +779,40 @@ theorem resolveAll_inv (H : Hash) (valid : Obj → Bool) (ext : Bytes → Option
           show acc'.length = _
           omega
 
-
 /-- **ingested_objects_hash_to_name.**  Whatever the input bytes — damaged, crafted, cyclic — every object
 forward chaining yields carries as its name the hash of `"<type> <len>\0" ++ data`, for an ARBITRARY hash `H`
 (no property of SHA-1 is used).  REF deltas are only ever applied to a base that was yielded under the name
 they ask for, or that the store holds under that name. -/
-theorem ingested_objects_hash_to_name (H : Hash) (valid : Obj → Bool) (ext : Bytes → Option (Nat × Bytes))
-    (entries : List Entry) : ∀ o ∈ (resolveAll H valid ext entries).objs, HashOK H o :=
-  (resolveAll_inv H valid ext entries).2.1
+theorem ingested_objects_hash_to_name (rej : Bool) (H : Hash) (valid : Obj → Bool) (ext : Bytes → Option (Nat × Bytes))
+    (entries : List Entry) : ∀ o ∈ (resolveAll rej H valid ext entries).objs, HashOK H o := by
+  intro o ho
+  simp only [ChainOut.objs, List.mem_map] at ho
+  obtain ⟨p, hp, rfl⟩ := ho
+  exact ((resolveAll_inv rej H valid ext entries).2.1 p hp).1
 
 /-- **chain_iterator_terminates.**  For EVERY list of entries — self-references, cycles of REF deltas, OFS
 deltas pointing anywhere, bases that do not exist — forward chaining ends within its budget of one step per
 entry (the out-of-fuel outcome `.failed .other` is unreachable), yields each entry at most once, and ends
 either with every entry resolved (`done` ⇒ as many objects as entries) or with an explicit report
 (`unresolved names` = UnresolvedDeltas, `.failed e` = the error that stopped it). -/
-theorem chain_iterator_terminates (H : Hash) (valid : Obj → Bool) (ext : Bytes → Option (Nat × Bytes))
+theorem chain_iterator_terminates (rej : Bool) (H : Hash) (valid : Obj → Bool) (ext : Bytes → Option (Nat × Bytes))
     (entries : List Entry) :
-    (resolveAll H valid ext entries).status ≠ .failed .other ∧
-    (resolveAll H valid ext entries).objs.length ≤ entries.length ∧
-    ((resolveAll H valid ext entries).status = .done → (resolveAll H valid ext entries).objs.length = entries.length) :=
-  ⟨(resolveAll_inv H valid ext entries).1, (resolveAll_inv H valid ext entries).2.2.1, (resolveAll_inv H valid ext entries).2.2.2⟩
+    (resolveAll rej H valid ext entries).status ≠ .failed .other ∧
+    (resolveAll rej H valid ext entries).objs.length ≤ entries.length ∧
+    ((resolveAll rej H valid ext entries).status = .done → (resolveAll rej H valid ext entries).objs.length = entries.length) := by
+  have h := resolveAll_inv rej H valid ext entries
+  simp only [ChainOut.objs, List.length_map]
+  exact ⟨h.1, h.2.2.1, h.2.2.2⟩
+
+/-- **accepted_chains_never_return** (full since the fix).  In everything the object stores accept
+(`reject_delta_cycles`), no object is named like an object of its own delta chain — neither like the entries it
+is a delta against, directly or indirectly, nor like the external base its chain starts from.  Such a name is
+what gives a pack two entries of one name of which one needs that very name to be resolved (lookups by name then
+run in a circle: `F-C04-ref-delta-named-like-its-base`). -/
+theorem accepted_chains_never_return (H : Hash) (valid : Obj → Bool) (ext : Bytes → Option (Nat × Bytes))
+    (entries : List Entry) : ∀ p ∈ (resolveAll true H valid ext entries).chains, p.1.name ∉ p.2 := by
+  intro p hp
+  exact ((resolveAll_inv true H valid ext entries).2.1 p hp).2 rfl
 
 /-! ### toy instantiation of the parameters (non-vacuity examples and `decide` witnesses) -/
 
@@ -821,14 +849,37 @@ def toyPack : Bytes :=
 example : (parsePackStream toyInflate toyH toyPack).toOption
     = some [⟨12, .full 3 [97, 98]⟩, ⟨16, .ofs 4 [2, 3, 0x90, 2, 1, 99]⟩] := by decide
 
-example : (resolveAll toyH (fun _ => true) (fun _ => none)
+/-- a "hash" that tells objects of different length apart (the constant `toyH` gives every object one name) -/
+def lenH : Hash := fun b => List.replicate 20 (UInt8.ofNat b.length)
+
+example : (resolveAll true lenH (fun _ => true) (fun _ => none)
       [⟨12, .full 3 [97, 98]⟩, ⟨16, .ofs 4 [2, 3, 0x90, 2, 1, 99]⟩]).status = .done ∧
-    (resolveAll toyH (fun _ => true) (fun _ => none)
+    (resolveAll true lenH (fun _ => true) (fun _ => none)
       [⟨12, .full 3 [97, 98]⟩, ⟨16, .ofs 4 [2, 3, 0x90, 2, 1, 99]⟩]).objs.map (·.data) = [[97, 98], [97, 98, 99]] := by decide
+
+/-- The attack of `F-C04-ref-delta-named-like-its-base` at the level of entries: the store holds X = "ab" (named
+`lenH "blob 2\0ab"` = twenty 9s); the pack has a REF_DELTA against that name whose result is "ab" again (identity
+delta: source 2, target 2, copy 0..2) and a new blob.  Refused with the delta error when the stores ask for it … -/
+example : (resolveAll true lenH (fun _ => true) (fun n => if n = List.replicate 20 9 then some (3, [97, 98]) else none)
+      [⟨12, .ref (List.replicate 20 9) [2, 2, 0x90, 2]⟩, ⟨40, .full 3 [120, 121, 122]⟩]).status = .failed .delta := by decide
+
+/-- … and resolved under the name of its own base — twice that name in the completed pack — when they do not
+(the code before the fix; `PackData.create_index` still). -/
+theorem old_delta_named_like_its_base_accepted :
+    (resolveAll false lenH (fun _ => true) (fun n => if n = List.replicate 20 9 then some (3, [97, 98]) else none)
+      [⟨12, .ref (List.replicate 20 9) [2, 2, 0x90, 2]⟩, ⟨40, .full 3 [120, 121, 122]⟩]).status = .done ∧
+    (resolveAll false lenH (fun _ => true) (fun n => if n = List.replicate 20 9 then some (3, [97, 98]) else none)
+      [⟨12, .ref (List.replicate 20 9) [2, 2, 0x90, 2]⟩, ⟨40, .full 3 [120, 121, 122]⟩]).chains.any
+        (fun p => p.2.contains p.1.name) = true := by decide
+
+/-- A longer circle (X → Y → X through an external X) is refused as well. -/
+example : (resolveAll true lenH (fun _ => true) (fun n => if n = List.replicate 20 9 then some (3, [97, 98]) else none)
+      [⟨12, .ref (List.replicate 20 9) [2, 3, 0x90, 2, 1, 99]⟩, ⟨40, .ref (List.replicate 20 10) [3, 2, 0x90, 2]⟩]).status
+    = .failed .delta := by decide
 
 /-- Cycles and self-references in forward chaining: two REF deltas naming each other, one OFS delta whose
 offset is its own position, one REF delta to a missing name — reported as unresolved, nothing yielded. -/
-example : (resolveAll toyH (fun _ => true) (fun _ => none)
+example : (resolveAll true toyH (fun _ => true) (fun _ => none)
       [⟨12, .ref [1] [0]⟩, ⟨40, .ref [2] [0]⟩, ⟨70, .ofs 0 [0]⟩, ⟨90, .ref [7] [0]⟩]).status
     = .unresolved [[1], [2], [7]] := by decide
 
@@ -1072,7 +1123,7 @@ theorem diskFirstPass_objs {c : Cfg} {inflate : Inflate} {H : Hash} {p : Path} {
         split at h
         · simp only [Except.ok.injEq, Option.some.injEq, Prod.mk.injEq] at h
           obtain ⟨_, rfl, _⟩ := h
-          exact ingested_objects_hash_to_name H _ _ entries
+          exact ingested_objects_hash_to_name _ H _ _ entries
         · cases h
 
 /-- **Stored objects hash to their names (disk).**  Whatever bytes are ingested through either path, and
@@ -1106,11 +1157,11 @@ theorem disk_store_names_are_hashes (c : Cfg) (inflate : Inflate) (H : Hash) (de
 theorem mem_store_names_are_hashes (c : Cfg) (inflate : Inflate) (H : Hash) (valid : Obj → Bool)
     (p : Path) (s : Store) (inp : Bytes) (hs : StoreOK H s) :
     StoreOK H (ingestMemC c inflate H valid p s inp).1 := by
-  have happ : ∀ entries, StoreOK H (s ++ (resolveAll H valid s.lookup entries).objs) := by
+  have happ : ∀ entries, StoreOK H (s ++ (resolveAll c.rejectDeltaCycles H valid s.lookup entries).objs) := by
     intro entries o ho
     rcases List.mem_append.mp ho with h | h
     · exact hs o h
-    · exact ingested_objects_hash_to_name H valid s.lookup entries o h
+    · exact ingested_objects_hash_to_name _ H valid s.lookup entries o h
   unfold ingestMemC
   simp only
   split
@@ -1280,7 +1331,7 @@ theorem guards_present :
     Gen.Ingest.zlibBounded = true ∧ Gen.Ingest.zlibSizeChecked = true ∧ Gen.Ingest.trailerVerified = true ∧
     Gen.Ingest.ofsZeroRejected = true ∧ Gen.Ingest.selfRefChecked = true ∧ Gen.Ingest.memChecksTrailer = true ∧
     Gen.Ingest.rollbackRemovesPack = true ∧ Gen.Ingest.rollbackRemovesIdx = true ∧ Gen.Ingest.abortRemovesTmp = true ∧
-    Cfg.current = ⟨true, true, true, false, (true, true)⟩ := by
+    Cfg.current = ⟨true, true, true, false, (true, true), true⟩ := by
   decide
 
 end Dulwich.Props.C04
